@@ -62,6 +62,8 @@ to player 1 after the last one. -/
 theorem player_rotates (st st' : St) (hp : st.pc = some .pted) (h : resume st = some st') (hn : st'.pc = some .ptws) :
     st'.cur = (if st.cur < st.players then st.cur + 1 else 1) := by
   unfold resume at h
+  split at h
+  · cases h
   simp only [hp] at h
   split at h
   · simp only [loopCheck, if_true, Option.some.injEq] at h
@@ -73,16 +75,65 @@ theorem player_rotates (st st' : St) (hp : st.pc = some .pted) (h : resume st = 
     · split <;> simp_all [emit]
     · split <;> simp_all [emit] <;> omega
 
+/-- Ball numbers: for balls_per_game ≥ 1, after ANY op sequence no player's ball number exceeds balls_per_game; before the
+first turn nobody has a ball number; during the turns every player up to the current one is on the current player's ball
+and every later player on the ball before it (the round structure: each player gets one turn per ball number, in order). -/
+theorem ball_number_bounded (b m k : Nat) (hb : 1 ≤ b) (ops : List Op) :
+    let s := run (start0 b m k) ops
+    (∀ p, s.balls p ≤ b) ∧
+    (inTurn s.pc → 1 ≤ s.cur ∧ s.cur ≤ s.players ∧ 1 ≤ s.balls s.cur ∧
+      (∀ p, 1 ≤ p → p ≤ s.cur → s.balls p = s.balls s.cur) ∧
+      (∀ p, s.cur < p → p ≤ s.players → s.balls p = s.balls s.cur - 1)) := by
+  intro s
+  have hI := run_binv _ ops (start0_binv b m k hb)
+  have hk : s.bpg = b := (run_bpg (start0 b m k) ops)
+  exact ⟨fun p => hk ▸ hI.bound p, hI.turnB⟩
+
+/-- One ball per turn plus one per extra ball awarded: in every reachable state, for every player, the number of balls
+started in this game plus the extra balls still pending equals the number of turns whose first ball started plus the extra
+balls awarded — every ball after the first of a turn consumed exactly one awarded extra ball, and nothing else starts a
+ball (the counters are ghost fields of the model, updated only where a ball starts / an extra ball is awarded). -/
+theorem one_ball_per_turn_plus_extra (b m k : Nat) (ops : List Op) (p : Nat) :
+    let s := run (start0 b m k) ops
+    s.started p + s.extra p = s.firstBalls p + s.awarded p :=
+  run_acc _ ops (fun _ => rfl) p
+
+/-- ... and a turn does start its first ball: the resumption after player_turn_started emits ball_will_start unless the
+end of the game has been requested, and the one after ball_ended starts another ball exactly when an extra ball is
+pending (and neither slam tilt nor end of game), consuming it. -/
+theorem turn_starts_its_balls (st st' : St) (h : resume st = some st') :
+    (st.pc = some .ptsd → (st'.pc = some .bws ↔ st.ending = false)) ∧
+    (st.pc = some .bed → (st'.pc = some .bws ↔ (st.extra st.cur > 0 ∧ st.slam = false ∧ st.ending = false)) ∧
+      (st'.pc = some .bws → st'.extra st.cur = st.extra st.cur - 1)) := by
+  unfold resume at h
+  split at h
+  · cases h
+  constructor
+  · intro hp
+    by_cases he : st.ending = true <;> by_cases hs : st.slam = true <;> by_cases hx : st.extra st.cur > 0 <;>
+      simp [hp, he, hs, hx, extraCheck, startBall] at h <;> subst h <;> simp [emit, he]
+  · intro hp
+    by_cases he : st.ending = true <;> by_cases hs : st.slam = true <;> by_cases hx : st.extra st.cur > 0 <;>
+      simp [hp, he, hs, hx, extraCheck, startBall] at h <;> subst h <;> simp [emit, he, hs, hx, setAt] <;> omega
+
 /-! ### non-vacuity -/
 
 /-- one player, one ball per game: the whole game, with a drain ending the ball -/
-example : (tr (run (start0 1 4 3) [.start, .resume, .resume, .resume, .resume, .resume, .resume, .resume, .resume,
+example : (tr (run (start0 1 4 3) [.start, .resume, .startCheck, .addPlayer, .resume, .resume, .resume, .resume, .resume, .resume, .resume,
       .drain 1, .resume, .resume, .resume, .resume, .resume, .resume, .resume, .resume, .resume, .finish])).length = 18 := by
   decide
 
 /-- end_game() requested inside player_turn_starting (D19) and with an extra ball pending (D20): no ball starts -/
-example : (let s := run (start0 3 4 3) [.start, .resume, .resume, .resume, .resume, .extraBall, .endGame, .resume,
+example : (let s := run (start0 3 4 3) [.start, .resume, .startCheck, .addPlayer, .resume, .resume, .resume, .extraBall, .endGame, .resume,
       .resume, .resume, .resume, .resume, .resume, .resume]
     (tr s).contains .bws) = false := by decide
+
+/-- end_game() while the game is starting: it ends without game_started and without waiting for a player -/
+example : tr (run (start0 3 4 3) [.start, .endGame, .resume, .resume, .resume, .resume]) = [.gws, .gsg, .gwe, .geg, .ged] := by
+  decide
+
+/-- two players, the second joining during ball 1; three balls each, never a fourth -/
+example : (let s := run (start0 1 4 3) [.start, .resume, .startCheck, .addPlayer, .resume, .resume, .addPlayer]
+    (s.players, s.cur, s.balls 1, s.balls 2)) = (2, 1, 1, 0) := by decide
 
 end MpfVerif.C06
